@@ -32,7 +32,7 @@ ASSUMPTIONS = [
     "law check: Hoeffding + union bound with delta=1e-12 per operation",
 ]
 
-KS = [0, 1, 1, 2, 2, 3, 5, 8]
+KS = [0, 1, 1, 1, 2, 2, 2, 3, 3, 5, 8, 11, 16]
 BIGK = 10 ** 9
 
 
@@ -51,14 +51,14 @@ def generate(seed, tier):
         prev = [i for i, o in enumerate(ops) if o["op"] == "sample"]
         sk = r.random()
         if sk < 0.3 or (sk < 0.55 and not prev):
-            start = {"kind": "fresh", "n": r.randint(1, 6)}
+            start = {"kind": "fresh", "n": r.choice([1, 2, 3, 4, 5, 6, 6, 9, 17, 33])}
             via = "state"
         elif sk < 0.55:
             start = {"kind": "prev", "ref": r.choice(prev)}
             via = r.choice(["state", "rbm"])
         else:
             dim = r.choice([1, 2, 2, 2])
-            nrows = 1 if dim == 1 else r.randint(1, 6)
+            nrows = 1 if dim == 1 else r.choice([1, 2, 3, 4, 5, 6, 6, 9, 17])
             rows = [[r.randint(0, 1) for _ in range(nv)] for _ in range(nrows)]
             if nrows >= 2 and r.random() < 0.4:
                 rows[-1] = list(rows[0])  # repeated rows
